@@ -35,9 +35,13 @@ def run_case(case, ctx):
     post, pre = [], []
     orig_gen, orig_inner = m.ctparse_gen, m._ctparse
 
+    snaps = {}
+
     def tee_gen(*a, **k):
         for p in orig_gen(*a, **k):
             post.append(p)
+            if p is not None:
+                snaps[id(p)] = (V.full(p.resolution), p.production, p.score, p.subject, list(p.labels) if p.labels is not None else None)
             mon.events["tee_post"] += 1
             yield p
 
@@ -74,6 +78,9 @@ def run_case(case, ctx):
             else:
                 best = max(p.score for p in cands)
                 same = [p for p in cands if p is res]
+                if same and snaps.get(id(res)) != (V.full(res.resolution), res.production, res.score, res.subject, list(res.labels) if res.labels is not None else None):
+                    pr.append(("returned-object-differs-from-what-was-streamed", "streamed %r, returned %r" % (
+                        snaps.get(id(res)), (V.full(res.resolution), res.production, res.score, res.subject, res.labels))))
                 if not same:
                     same = [p for p in cands if V.full(p.resolution) == V.full(res.resolution) and p.production == res.production
                             and p.score == res.score and p.subject == res.subject and p.labels == res.labels]
